@@ -98,14 +98,22 @@ theorem flushLoop_twf (c : Cfg) {P : Nat} : ∀ (n ti : Nat) (s : St), TWF c P s
   | zero => intro ti s h; exact h
   | succ n ih => intro ti s h; exact ih _ _ (tubeFlush_twf c h ti)
 
-theorem onKmer_twf (c : Cfg) {P : Nat} {l : Loop} (h : TWF c P l.st) (pos : Nat) (hp : P ≤ pos) (ts : List Nat) :
-    TWF c pos (onKmer c l pos ts).st := by
-  unfold onKmer
-  simp only []
-  have h1 := fold_twf c pos ts l.st (h.mono hp)
-  split
-  · exact retire_twf c h1 _
-  · exact h1
+theorem tickLoop_twf (c : Cfg) {P : Nat} (passed : Nat) : ∀ (fuel : Nat) (st : St) (ticker : Nat),
+    TWF c P st → TWF c P (tickLoop c passed fuel st ticker).st := by
+  intro fuel
+  induction fuel with
+  | zero => intro st ticker h; exact h
+  | succ n ih =>
+    intro st ticker h
+    rw [tickLoop]
+    split
+    · exact ih _ _ (retire_twf c h _)
+    · exact h
+
+theorem stepPos_twf (c : Cfg) {P : Nat} {l : Loop} (h : TWF c P l.st) (pos : Nat) (hp : P ≤ pos) (ts : List Nat) :
+    TWF c pos (stepPos c l pos ts).st := by
+  unfold stepPos tick kmers
+  exact tickLoop_twf c _ _ _ _ (fold_twf c pos ts l.st (h.mono hp))
 
 theorem scanN_twf (c : Cfg) (ts : Nat → List Nat) (l0 : Loop) (h0 : TWF c 0 l0.st) :
     ∀ N, TWF c N (scanN c ts l0 N).st := by
@@ -114,14 +122,14 @@ theorem scanN_twf (c : Cfg) (ts : Nat → List Nat) (l0 : Loop) (h0 : TWF c 0 l0
   | zero => exact h0
   | succ N ih =>
     rw [scanN_succ]
-    exact (onKmer_twf c ih N (Nat.le_refl _) (ts N)).mono (Nat.le_succ _)
+    exact (stepPos_twf c ih N (Nat.le_refl _) (ts N)).mono (Nat.le_succ _)
 
 /-- every hit pushed by a whole run of the filter model has `From + k ≤ To` and `From ≤ N` (the
     number of query positions scanned) -/
 theorem runFilter_hits_wf (c : Cfg) (ts : Nat → List Nat) (N qlen : Nat) :
     ∀ h ∈ (runFilter c ts N qlen).hits, h.from_ + c.k ≤ h.to ∧ h.from_ ≤ (N : Int) := by
   have h0 : TWF c 0 (Loop.mk (St.mk (Array.replicate c.cap default) [] false)
-      ((c.off + c.maxError : Nat) : Int)).st := by
+      (c.off + c.maxError)).st := by
     refine ⟨?_, by simp, by simp⟩
     intro slot
     show (getTube { tubes := Array.replicate c.cap default, hits := [] } slot).qLo ≤ _ ∧ _
@@ -135,13 +143,13 @@ theorem runFilter_hits_wf (c : Cfg) (ts : Nat → List Nat) (N qlen : Nat) :
   exact ⟨(flushLoop_twf c _ _ _ h2).hits h hh, (flushLoop_twf c _ _ _ h2).fromLe h hh⟩
 
 open Biogo.Proofs.FilterComplete Biogo.Proofs.Kmer Biogo.Spec.Kmer Biogo.Kmer in
-/-- the same for `filter` on a query without invalid letters -/
+/-- the same for `filter` (position-based ticker) on any query -/
 theorem filter_hits_wf {lk : Lookup} (hlk : FourLetter lk) (rule : Rule) (ix : Index) (p : Params) (q : List UInt8)
-    (selfAlign complement : Bool) (hk : 1 ≤ ix.k) (hk2 : 2 * ix.k ≤ wordBits) (hq : AllValid lk q)
+    (selfAlign complement : Bool) (hrule : rule.tickByPosition = true) (hk : 1 ≤ ix.k) (hk2 : 2 * ix.k ≤ wordBits)
     (hkq : ix.k ≤ q.length) (he : p.maxError ≤ p.tubeOffset) (hoff : 1 ≤ p.tubeOffset)
     (hits : List Hit) (hf : filter rule lk ix p q selfAlign complement = .ok hits) :
     ∀ h ∈ hits, h.from_ + ix.k ≤ h.to ∧ h.from_ ≤ (q.length : Int) := by
-  have e := filter_eq_run hlk rule ix p q selfAlign complement hk hk2 hq hkq he hoff
+  have e := filter_eq_run hlk rule ix p q selfAlign complement hrule hk hk2 hkq he hoff
   simp only [] at e
   rw [e] at hf
   split at hf
